@@ -7,12 +7,14 @@ set -u
 prop="$1"; which="$2"; tier="${3:-quick}"
 ROOT="${VERIF_ROOT:-/verif}"
 B="$ROOT/.build"
+BIN="${VERIF_HARNESS_BIN:-$ROOT/harness/target/release/oxverif}"
+HDIR="$(dirname "$(dirname "$(dirname "$BIN")")")"
 if [ "$tier" = "thorough" ] && [ -z "${VERIF_NO_MIRI:-}" ]; then
   out="$B/miri_$prop"; rm -rf "$out"; mkdir -p "$out"
   export MIRIFLAGS="-Zmiri-disable-isolation -Zmiri-deterministic-floats"
   # first shard builds (serialised by cargo's lock), the rest only run
-  ( cd "$ROOT/harness" && timeout 1500 cargo +nightly miri run --offline -- miri-smoke "$which" 0 24 >"$out/shard_0.log" 2>&1; echo "exit=$?" >>"$out/shard_0.log" )
-  seq 1 23 | xargs -P 12 -I{} bash -c "cd '$ROOT/harness' && timeout 1500 cargo +nightly miri run --offline -- miri-smoke '$which' {} 24 >'$out/shard_{}.log' 2>&1; echo \"exit=\$?\" >>'$out/shard_{}.log'"
+  ( cd "$HDIR" && timeout 1500 cargo +nightly miri run --offline -- miri-smoke "$which" 0 24 >"$out/shard_0.log" 2>&1; echo "exit=$?" >>"$out/shard_0.log" )
+  seq 1 23 | xargs -P 12 -I{} bash -c "cd '$HDIR' && timeout 1500 cargo +nightly miri run --offline -- miri-smoke '$which' {} 24 >'$out/shard_{}.log' 2>&1; echo \"exit=\$?\" >>'$out/shard_{}.log'"
   python3 - "$out" "$B/miri_$prop.json" <<'PY'
 import glob,json,sys,re
 ok=0; ub=[]; other=[]; calls=0
@@ -30,4 +32,4 @@ print("miri: %d/24 shards ok, %d UB reports, %d not completed"%(ok,len(ub),len(o
 PY
   export VERIF_MIRI_SUMMARY="$B/miri_$prop.json"
 fi
-exec "$ROOT/harness/target/release/oxverif" run "$prop" "$tier"
+exec "$BIN" run "$prop" "$tier"
